@@ -45,7 +45,7 @@ ASSUMPTIONS = [
     "age == expiration exactly is unspecified; expiration=0 and unhashable arguments are not generated",
     "identity-hashed receivers in the base workload; ==-equal distinct receivers run as a separate family",
 ]
-MINIMUMS = {"monitor:required-hit": 20000, "monitor:right-key": 20000, "monitor:capacity": 20000, "evictions_forced": 2000, "expiry_boundary_crossed": 2000, "required_hit_after_reorder": 500}
+MINIMUMS = {"monitor:required-hit": 20000, "monitor:right-key": 20000, "monitor:capacity": 20000, "evictions_forced": 2000, "expiry_boundary_crossed": 2000, "required_hit_after_reorder": 300}
 JOBS = {"quick": 4, "thorough": 16}
 LEVEL_TEXT = (
     "All histories up to the tier's length (quick 5-6, thorough 7) over 3 typed-distinct keys and 2 dyadic clock advances are run for every "
@@ -55,7 +55,7 @@ LEVEL_TEXT = (
 LEVEL_NOTE = "Trusted: the spec-level model in hv/props/c12.py, the virtual clock patch of the cache module's time source, CPython refcounting/gc for liveness."
 
 EXH_LEN = {"quick": 5, "thorough": 7}
-RANDOM = {"quick": 3000, "thorough": 150_000}
+RANDOM = {"quick": 4500, "thorough": 200_000}
 
 
 class Result:
@@ -242,14 +242,17 @@ def run_history(R: Recorder, case: dict[str, Any], verbose: bool = False) -> Non
                             if b is not None and before - b <= exp < clock.now - b or (b is not None and clock.now - b == exp):
                                 flags["boundary"] = True
                 continue
-            _, recv, args, fail = op
+            _, recv, args, fail, *rest = op
+            swap = bool(rest and rest[0])  # keyword form only: pass the keywords in the other order
             args = tuple(args)
             if fail:
                 inv["fail_next"] = True
             n0 = inv["n"]
             target = getattr(receivers[recv], "fn") if is_method else fn
             try:
-                if form == "kw":
+                if form == "kw" and swap:
+                    r = target(y=args[1], x=args[0])
+                elif form == "kw":
                     r = target(x=args[0], y=args[1])
                 else:
                     r = target(*args)
@@ -260,7 +263,7 @@ def run_history(R: Recorder, case: dict[str, Any], verbose: bool = False) -> Non
             except CallFailed as exc:
                 outcome = ("raise", exc)
             inv["fail_next"] = False
-            key = (recv, typed(args))
+            key = (recv, typed(args), swap)  # another keyword order is another key as far as required hits go (unspecified across)
             judge(i, key, recv, args, outcome, inv["n"] > n0)
             del outcome
             capacity(i)
@@ -336,15 +339,18 @@ def random_case(rng: random.Random) -> dict[str, Any]:
     nkeys = rng.randint(2, 6)
     vals = rng.sample(KEYS8, nkeys)
     hist: list[Any] = []
+    twin_pool = rng.random() < 0.3
     for _ in range(rng.randint(6, 60)):
         if rng.random() < 0.25:
             hist.append(["adv", rng.choice([0.125, 0.5, 1.0, 1.5])])
         else:
             a = rng.choice(vals)
             b = rng.choice([0, 0, 0, 0.0, False])
+            if twin_pool:
+                a, b = rng.choice([1, 1.0, True]), rng.choice([1, 1.0, True])  # ==-equal values of different types under both names
             recv = rng.choice("ABC") if is_method else None
-            hist.append(["call", recv, [a, b], rng.random() < 0.06])
-    return {"flavour": flavour, "limit": limit, "exp": exp, "form": rng.choice(["pos", "pos", "kw"]), "hist": hist}
+            hist.append(["call", recv, [a, b], rng.random() < 0.06, rng.random() < 0.5])
+    return {"flavour": flavour, "limit": limit, "exp": exp, "form": "kw" if twin_pool and rng.random() < 0.7 else rng.choice(["pos", "pos", "kw"]), "hist": hist}
 
 
 def run(R: Recorder, tier: str, seed: int, shard: int, nshards: int) -> None:
